@@ -952,7 +952,11 @@ Definition jwe_of_b64 (p k i c t : bytes) : res jwe_fields :=
                                   -> (0 payload ((prot sig alg nonce signing_input) ...)) | (1)
    (24 object hdrtable)           ParseEncrypted, JSON
                                   -> (0 prot ((key alg enc) ...) iv ct tag aad_input) | (1)
-   (30 (object ...) (op ...))     history on persistent objects, see hist_obs -> (0 result ...) *)
+   (30 (object ...) (op ...))     history on persistent objects, see hist_obs -> (0 result ...)
+   (31 len sha256 ...)            large payload (or large aad) round trip: the object verifies / decrypts to
+                                  exactly the payload, reported as its length and SHA-256 (compression and
+                                  the primitives are oracles; the payload itself stays out of the observation)
+                                  -> (0 len sha256)                                                  *)
 (* abstract JSON objects in s-expression form (built by the harness with an independent
    encoding/json parse of the text): object = ((name value) ...), value = xSTRING | (1 header) |
    (2 (item ...)), header = ((name value) ...), item = ((name leaf) ...), leaf = xSTRING | (1 header);
@@ -1141,6 +1145,7 @@ Definition run_c16 (c : sx) : sx :=
       obs_jws_json (parse_jws_full (hdr_dec_tab (hdrtab_of_sx tab)) (obj_of_sx o))
   | SL (SZ 24 :: SL o :: SL tab :: _) =>
       obs_jwe_json (parse_jwe_full (hdr_dec_tab (hdrtab_of_sx tab)) (obj_of_sx o))
+  | SL (SZ 31 :: SZ len :: SB digest :: _) => s_ok [SZ len; SB digest]
   | SL (SZ 30 :: SL objs :: SL ops :: _) => SL (SZ 0 :: hist_run (hobjs_of_sx objs) ops)
   | SL (SZ 19 :: SB iv :: SZ ns :: _) =>
       obs_res (let* _ := aead_decrypt (z2n ns) (fun _ _ _ => Ok []) iv [] [] [] in Ok [])
